@@ -15,7 +15,9 @@ static int cmd_compile(int argc, char** argv) {
     // announce before running so that a crash or hang names its input
     th::emit({{"begin", out["i"]}});
     CodegenResult cr;
+    th::watch(out["i"].is_number() ? out["i"].get<long>() : -1, in.value("watch", 120));
     th::run_big_stack([&]() { cr = compile(files, mainf); });
+    th::unwatch();
     out["ok"] = cr.generated_correctly;
     json errs = json::array();
     for (auto& e : cr.errors) {
